@@ -35,6 +35,9 @@ pub enum Kind {
     Killed,
     /// an address nobody listens on (connection refused)
     Undialable,
+    /// a TCP socket that takes the connection and never says anything: the dial fails only when the connection-open
+    /// timeout (1.5 s) runs out, long after the healthy targets were served
+    BlackHole,
     /// only an address of a transport Q does not run
     NoUsableAddress,
     /// accepts connections and Kademlia substreams, never answers
@@ -52,7 +55,14 @@ pub enum QOp {
     /// target: slot index, or a random peer if out of range
     FindNode { target: u8 },
     Put { key: u8, quorum: u8 },
-    PutTo { key: u8, targets: u8, quorum: u8 },
+    PutTo {
+        key: u8,
+        targets: u8,
+        quorum: u8,
+        /// the first target is listed this many more times (the API takes a list, nothing forbids naming a peer twice)
+        #[serde(default)]
+        dup: u8,
+    },
     Get { key: u8, quorum: u8 },
     Provide { key: u8, quorum: u8 },
     GetProviders { key: u8 },
@@ -87,6 +97,7 @@ fn kind_strategy() -> impl Strategy<Value = Kind> {
         6 => Just(Kind::Healthy),
         2 => Just(Kind::Killed),
         2 => Just(Kind::Undialable),
+        1 => Just(Kind::BlackHole),
         2 => Just(Kind::NoUsableAddress),
         1 => Just(Kind::Mute),
         1 => Just(Kind::NoKad),
@@ -102,7 +113,7 @@ fn op_strategy() -> impl Strategy<Value = QOp> {
     prop_oneof![
         3 => (0u8..8).prop_map(|target| QOp::FindNode { target }),
         3 => (0u8..3, quorum_strategy()).prop_map(|(key, quorum)| QOp::Put { key, quorum }),
-        4 => (0u8..3, 1u8..64, quorum_strategy()).prop_map(|(key, targets, quorum)| QOp::PutTo { key, targets, quorum }),
+        4 => (0u8..3, 1u8..64, quorum_strategy(), prop_oneof![3 => Just(0u8), 1 => Just(1u8), 1 => Just(2u8)]).prop_map(|(key, targets, quorum, dup)| QOp::PutTo { key, targets, quorum, dup }),
         3 => (0u8..3, quorum_strategy()).prop_map(|(key, quorum)| QOp::Get { key, quorum }),
         3 => (0u8..3, quorum_strategy()).prop_map(|(key, quorum)| QOp::Provide { key, quorum }),
         2 => (0u8..3).prop_map(|key| QOp::GetProviders { key }),
@@ -148,7 +159,7 @@ fn unreachable_targets_strategy() -> impl Strategy<Value = Case> {
         prop::bool::weighted(0.4),
         prop::collection::vec(
             prop_oneof![
-                3 => (0u8..3, 1u8..64, quorum_strategy()).prop_map(|(key, targets, quorum)| QOp::PutTo { key, targets, quorum }),
+                3 => (0u8..3, 1u8..64, quorum_strategy(), prop_oneof![3 => Just(0u8), 1 => Just(1u8), 1 => Just(2u8)]).prop_map(|(key, targets, quorum, dup)| QOp::PutTo { key, targets, quorum, dup }),
                 2 => (0u8..3, quorum_strategy()).prop_map(|(key, quorum)| QOp::Put { key, quorum }),
                 2 => (0u8..3, quorum_strategy()).prop_map(|(key, quorum)| QOp::Provide { key, quorum }),
                 1 => (0u8..8).prop_map(|target| QOp::FindNode { target }),
@@ -180,7 +191,7 @@ fn killed_while_connecting_strategy() -> impl Strategy<Value = Case> {
         any::<u8>(),
         prop::collection::vec(
             prop_oneof![
-                3 => (0u8..3, 1u8..64, quorum_strategy()).prop_map(|(key, targets, quorum)| QOp::PutTo { key, targets, quorum }),
+                3 => (0u8..3, 1u8..64, quorum_strategy(), prop_oneof![3 => Just(0u8), 1 => Just(1u8), 1 => Just(2u8)]).prop_map(|(key, targets, quorum, dup)| QOp::PutTo { key, targets, quorum, dup }),
                 2 => (0u8..3, quorum_strategy()).prop_map(|(key, quorum)| QOp::Put { key, quorum }),
                 2 => (0u8..3, quorum_strategy()).prop_map(|(key, quorum)| QOp::Provide { key, quorum }),
                 2 => (0u8..8).prop_map(|target| QOp::FindNode { target }),
@@ -340,6 +351,7 @@ fn run_case(c: &Case, deadline: Duration, avoid_overcommit: bool) -> CaseResult 
     .map_err(|e| CaseFail::new("C16/harness-node-start-failed", e))?;
     let mut slot_peer: Vec<PeerId> = Vec::new();
     let mut slot_addr: Vec<Multiaddr> = Vec::new();
+    let mut holes: Vec<std::net::TcpListener> = Vec::new();
     for (i, kind) in c.slots.iter().enumerate() {
         let seed = c.seed % 1000 + 60_010 + i as u64;
         match kind {
@@ -371,6 +383,15 @@ fn run_case(c: &Case, deadline: Duration, avoid_overcommit: bool) -> CaseResult 
                 let peer = peer_from_seed(seed);
                 slot_peer.push(peer);
                 slot_addr.push(Multiaddr::empty().with(Protocol::Ip4([127, 0, 0, 1].into())).with(Protocol::Tcp(1)).with(Protocol::P2p(peer.into())));
+                nodes.push(None);
+            }
+            Kind::BlackHole => {
+                let peer = peer_from_seed(seed);
+                let l = std::net::TcpListener::bind("127.0.0.1:0").map_err(|e| CaseFail::new("C16/harness-node-start-failed", format!("{e}")))?;
+                let port = l.local_addr().map_err(|e| CaseFail::new("C16/harness-node-start-failed", format!("{e}")))?.port();
+                holes.push(l);
+                slot_peer.push(peer);
+                slot_addr.push(Multiaddr::empty().with(Protocol::Ip4([127, 0, 0, 1].into())).with(Protocol::Tcp(port)).with(Protocol::P2p(peer.into())));
                 nodes.push(None);
             }
             Kind::NoUsableAddress => {
@@ -434,6 +455,7 @@ fn run_case(c: &Case, deadline: Duration, avoid_overcommit: bool) -> CaseResult 
             }
         }
     };
+    let mut dup_targets = false;
     for op in &c.ops {
         if !killed && t0.elapsed() >= kill_due {
             kill_now(&mut nodes);
@@ -449,12 +471,15 @@ fn run_case(c: &Case, deadline: Duration, avoid_overcommit: bool) -> CaseResult 
                 q.send(Cmd::Kad(KadCmd::PutRecord { key: key_bytes(*key), value: value_bytes(*key, c.seed ^ 0x77), quorum: *quorum }));
                 issued.push(Started { what: "put_record", targets: vec![], key: *key, quorum: *quorum });
             }
-            QOp::PutTo { key, targets, quorum } => {
+            QOp::PutTo { key, targets, quorum, dup } => {
                 let t: Vec<usize> = (0..n).filter(|i| targets >> i & 1 == 1).collect();
+                let mut listed: Vec<usize> = t.first().map(|f| vec![*f; *dup as usize]).unwrap_or_default();
+                listed.extend(t.iter().cloned());
+                dup_targets |= *dup > 0 && !t.is_empty();
                 q.send(Cmd::Kad(KadCmd::PutRecordToPeers {
                     key: key_bytes(*key),
                     value: value_bytes(*key, c.seed ^ 0x99 ^ issued.len() as u64),
-                    peers: t.iter().map(|i| slot_peer[*i]).collect(),
+                    peers: listed.iter().map(|i| slot_peer[*i]).collect(),
                     quorum: *quorum,
                 }));
                 issued.push(Started { what: "put_record_to_peers", targets: t, key: *key, quorum: *quorum });
@@ -527,7 +552,7 @@ fn run_case(c: &Case, deadline: Duration, avoid_overcommit: bool) -> CaseResult 
     ensure!(started.len() == n_issued, "C16/harness-commands-not-executed", "{} of {} operations were started", started.len(), n_issued);
     let ids: HashSet<usize> = started.iter().map(|s| s.0).collect();
     ensure!(ids.len() == started.len(), "C16/query-id-reused", "{:?}", started.iter().map(|s| s.0).collect::<Vec<_>>());
-    let unreachable_slot = |i: usize| matches!(c.slots[i], Kind::NoUsableAddress | Kind::Undialable | Kind::NoKad);
+    let unreachable_slot = |i: usize| matches!(c.slots[i], Kind::NoUsableAddress | Kind::Undialable | Kind::NoKad | Kind::BlackHole);
     let dial_refused_at_once = |i: usize| matches!(c.slots[i], Kind::NoUsableAddress) || (c.limit_full && !pre.contains(&i));
     let mut slowest = Duration::ZERO;
     let mut failed_queries = 0usize;
@@ -627,6 +652,7 @@ fn run_case(c: &Case, deadline: Duration, avoid_overcommit: bool) -> CaseResult 
             ensure!(ids.contains(x), "C16/event-for-a-query-that-was-never-started", "{kind} for query {x}");
         }
     }
+    drop(holes);
     let faulty = c.slots.iter().filter(|k| !matches!(k, Kind::Healthy)).count();
     let put_to_unreachable = issued.iter().any(|s| s.what == "put_record_to_peers" && s.targets.iter().any(|i| unreachable_slot(*i)));
     let mut ok = CaseOk::trivial();
@@ -638,11 +664,13 @@ fn run_case(c: &Case, deadline: Duration, avoid_overcommit: bool) -> CaseResult 
         .class_if(c.slots.contains(&Kind::Mute), "slot-never-answers")
         .class_if(c.slots.contains(&Kind::Rogue), "slot-answers-with-something-else")
         .class_if(c.slots.contains(&Kind::Undialable), "slot-refuses-connections")
+        .class_if(c.slots.contains(&Kind::BlackHole), "slot-takes-the-connection-and-stays-silent")
         .class_if(c.slots.contains(&Kind::NoUsableAddress), "slot-without-usable-address")
         .class_if(c.slots.contains(&Kind::NoKad), "slot-without-kademlia")
         .class_if(c.limit_full, "outbound-limit-full")
         .class_if(cut_done, "connection-cut-by-q")
         .class_if(put_to_unreachable, "put-to-peers-with-unreachable-target")
+        .class_if(dup_targets, "put-to-peers-naming-a-target-twice")
         .class_if(failed_queries > 0, "some-query-failed")
         .class_if(succeeded_puts > 0, "some-put-or-announcement-succeeded")
         .class_if(slowest > Duration::from_secs(1), "slowest-query-over-1s")
